@@ -387,3 +387,31 @@ def run(repo: Repo, rep: Report, tier: str) -> None:
     want = {("Int", "Int"): {"IntValue()"}, ("Signal", "Int"): {"left_type"}, ("Int", "Signal"): {"right_type"}, ("Signal", "Signal"): {"left_type"}}
     for k, v in want.items():
         rep.check(table.get(k) == v, "C01-R6", f"{k[0]} op {k[1]} -> {sorted(v)[0]}", f"returns {sorted(table.get(k, []))}", cs.loc())
+
+    # ---------------- R8 ---------------------------------------------------------------
+    rep.rule("C01-R8", "a typed literal `(type, value)` keeps its value: every IR node built while lowering a SignalLiteral takes its value operand from expr.value "
+             "(a constant folded from it, or the lowered expression); no path substitutes a fixed number")
+    from .util import canon as _canon8
+    el8 = repo.cls("ExpressionLowerer")
+    roots8 = [el8.methods["lower_signal_literal"]]
+    seen8 = {roots8[0].name}
+    work8 = list(roots8)
+    while work8:
+        f8 = work8.pop()
+        for c8 in calls_in(f8.node):
+            nm8 = call_name(c8)
+            if isinstance(c8.func, ast.Attribute) and norm(c8.func.value) == "self" and nm8 in el8.methods and nm8 not in seen8 and c8.args and norm(c8.args[0]) == "expr" and nm8 not in ("lower_expr", "_attach_expr_context", "_resolve_signal_type"):
+                seen8.add(nm8)
+                roots8.append(el8.methods[nm8])
+                work8.append(el8.methods[nm8])
+    n8 = 0
+    for f8 in roots8:
+        c8n = _canon8(f8)
+        for c8 in calls_in(f8.node):
+            if call_name(c8) in ("const", "arithmetic", "decider") and isinstance(c8.func, ast.Attribute) and norm(c8.func.value) == "self.ir_builder":
+                n8 += 1
+                vals = [c8n.text(a) for a in (c8.args[1:2] if call_name(c8) == "const" else c8.args[1:3])]
+                ok8 = any("expr.value" in v for v in vals)
+                rep.check(ok8, "C01-R8", f"{f8.short}: value operand of ir_builder.{call_name(c8)}(...) #{n8} derives from expr.value",
+                          "; ".join(v[:90] for v in vals) if ok8 else f"value operand is {vals}: the literal's value expression is dropped on this path (e.g. `(\"signal-A\", 5 * 2 - 9)` yields signal-A = 0)", f8.loc(c8))
+    rep.floor("C01-R8", "IR nodes built for a typed literal", n8, 2)
